@@ -309,6 +309,30 @@ func verifC13TableOK(tbl vsx) bool {
 	return true
 }
 
+// ... and it must answer for every grpc-status-details-bin value the examiner can ask about
+func verifC13TableCovers(tbl vsx, hs ...http.Header) bool {
+	for _, h := range hs {
+		vals := h.Values("Grpc-Status-Details-Bin")
+		if len(vals) == 0 {
+			continue
+		}
+		data, ok := verifC13DecodeB64(vals[0])
+		if !ok {
+			continue
+		}
+		found := false
+		for _, e := range tbl.l {
+			if bytes.Equal(e.l[0].b, data) {
+				found = true
+			}
+		}
+		if !found {
+			return false
+		}
+	}
+	return true
+}
+
 // encoding/json's view of a text: the value tree with duplicate keys and key order kept
 // (json.Decoder tokens), or not-ok when json.Unmarshal would report a syntax error.
 func verifC13JSONTree(text []byte) (vsx, bool) {
@@ -442,6 +466,9 @@ func verifC13Eos(args []vsx) vsx {
 	}
 	p1 := &verifC13Printer{}
 	hs := examineGRPCEndStream(args[0].str(), p1)
+	if !verifC13TableCovers(args[1], hs) {
+		return verifC13BadCase()
+	}
 	p2 := &verifC13Printer{}
 	snapshot := verifC13SortedMap(hs)
 	checkGRPCStatus(hs, p2)
@@ -450,6 +477,9 @@ func verifC13Eos(args []vsx) vsx {
 
 func verifC13Status(args []vsx) vsx {
 	if !verifC13TableOK(args[1]) {
+		return verifC13BadCase()
+	}
+	if !verifC13TableCovers(args[1], verifC13HeaderMap(args[0])) {
 		return verifC13BadCase()
 	}
 	p := &verifC13Printer{}
@@ -552,6 +582,13 @@ func verifC13Wire(args []vsx) vsx {
 		return verifC13BadCase()
 	}
 	hdr := verifC13HeaderMap(args[6])
+	covered := []http.Header{hdr, verifC13HeaderMap(args[7])}
+	if len(args[4].l) == 1 {
+		covered = append(covered, examineGRPCEndStream(args[4].l[0].str(), &verifC13Printer{}))
+	}
+	if !verifC13TableCovers(args[10], covered...) {
+		return verifC13BadCase()
+	}
 	hdr["Content-Type"] = []string{ct}
 	resp := &http.Response{StatusCode: statusCode, Header: hdr, Trailer: verifC13HeaderMap(args[7])}
 	var terr error
